@@ -175,6 +175,12 @@ def download(
     licenses = {_strip_plus_from_identifier(lic) for lic in licenses}
     return_code = 0
     for lic in licenses:
+        # An identifier is no path. With a separator in it, the text would be
+        # fetched from, and written to, somewhere else than asked for.
+        if Path(lic).name != lic:
+            _could_not_download(lic)
+            return_code = 1
+            continue
         destination: Path = output  # type: ignore
         if destination is None:
             destination = _path_to_license_file(lic, obj.project)
